@@ -88,6 +88,7 @@ type vfC13Summary struct {
 	Events   int    `json:"events"`
 	Panic    string `json:"panic"`
 	Skipped  bool   `json:"skipped"` // not executed: too many executions hung before
+	Stuck    bool   `json:"stuck"`   // the hang is certain: nothing can wake executeQuery any more
 }
 
 // scripted error: one object per attempt, so "the last attempt's error" is an identity
@@ -136,11 +137,14 @@ type vfC13Run struct {
 	made    map[int]string // aid -> class the attempt's error object was made for
 	polName string
 
-	maxDelay  time.Duration
-	retLogged bool   // the return event has been logged (mu)
-	stmt      string // "query" | "batch"
-	observer  bool
-	entries   string // batch: all | none | mixed
+	maxDelay              time.Duration
+	retLogged             bool // the return event has been logged (mu)
+	runsStarted, runsLive int  // execution goroutines (mu)
+	minDelay              time.Duration
+
+	stmt     string // "query" | "batch"
+	observer bool
+	entries  string // batch: all | none | mixed
 }
 
 func vfC13Gid() int64 {
@@ -371,8 +375,8 @@ type vfC13Batch struct {
 }
 
 func (q *vfC13Query) retryPolicy() RetryPolicy { return q.vrt }
-func (q *vfC13Query) borrowForExecution()      { q.vrun.wg.Add(1) }
-func (q *vfC13Query) releaseAfterExecution()   { q.vrun.wg.Done() }
+func (q *vfC13Query) borrowForExecution()      { q.vrun.borrow() }
+func (q *vfC13Query) releaseAfterExecution()   { q.vrun.release() }
 func (q *vfC13Query) execute(ctx context.Context, conn *Conn) *Iter {
 	return q.vrun.doExecute(ctx, conn)
 }
@@ -381,13 +385,73 @@ func (q *vfC13Query) attempt(keyspace string, end, start time.Time, iter *Iter, 
 }
 
 func (b *vfC13Batch) retryPolicy() RetryPolicy { return b.vrt }
-func (b *vfC13Batch) borrowForExecution()      { b.vrun.wg.Add(1) }
-func (b *vfC13Batch) releaseAfterExecution()   { b.vrun.wg.Done() }
+func (b *vfC13Batch) borrowForExecution()      { b.vrun.borrow() }
+func (b *vfC13Batch) releaseAfterExecution()   { b.vrun.release() }
 func (b *vfC13Batch) execute(ctx context.Context, conn *Conn) *Iter {
 	return b.vrun.doExecute(ctx, conn)
 }
 func (b *vfC13Batch) attempt(keyspace string, end, start time.Time, iter *Iter, host *HostInfo) {
 	b.vrun.doAttempt(func() { b.Batch.attempt(keyspace, end, start, iter, host) }, iter, host)
+}
+
+// execution goroutines (queryExecutor.run) started / still running: run() brackets its work with
+// borrowForExecution / releaseAfterExecution
+func (r *vfC13Run) borrow() {
+	r.wg.Add(1)
+	r.mu.Lock()
+	r.runsStarted++
+	r.runsLive++
+	r.mu.Unlock()
+}
+
+func (r *vfC13Run) release() {
+	r.mu.Lock()
+	r.runsLive--
+	r.mu.Unlock()
+	r.wg.Done()
+}
+
+// how long executeQuery may take to return once nothing can wake it any more
+const vfC13StuckGrace = 3 * time.Second
+
+// awaitEnd waits for executeQuery (done) and every execution goroutine.  It recognises, EVENT
+// BASED, that executeQuery can never return: the caller's context is done, every execution
+// goroutine that was started has finished (so nothing will ever be sent on the results channel),
+// and executeQuery has still not returned after a grace period.  tick() is called between polls.
+func (r *vfC13Run) awaitEnd(done <-chan struct{}, limit time.Duration, tick func()) (hang string, stuck bool) {
+	fin := make(chan struct{})
+	go func() { <-done; r.wg.Wait(); close(fin) }()
+	watchdog := time.After(limit)
+	var since time.Time
+	for {
+		if tick != nil {
+			tick()
+		}
+		select {
+		case <-fin:
+			return "", false
+		case <-watchdog:
+			return fmt.Sprintf("executeQuery or an execution goroutine did not finish within %v", limit), false
+		case <-time.After(500 * time.Microsecond):
+		}
+		returned := false
+		select {
+		case <-done:
+			returned = true
+		default:
+		}
+		r.mu.Lock()
+		cond := !returned && r.runsStarted > 0 && r.runsLive == 0 && r.ctx.Err() != nil
+		r.mu.Unlock()
+		switch {
+		case !cond:
+			since = time.Time{}
+		case since.IsZero():
+			since = time.Now()
+		case time.Since(since) > vfC13StuckGrace:
+			return "executeQuery has not returned although the caller's context is done and every execution goroutine has finished: nothing can wake it any more", true
+		}
+	}
 }
 
 // observer installed on half of the statements (the real attempt() takes another path then)
@@ -423,7 +487,7 @@ func (r *vfC13Run) doExecute(ctx context.Context, conn *Conn) *Iter {
 		if r.rng.Intn(5) == 0 {
 			class = "ok"
 		}
-		delay = time.Duration(r.rng.Int63n(int64(r.maxDelay) + 1))
+		delay = r.minDelay + time.Duration(r.rng.Int63n(int64(r.maxDelay-r.minDelay)+1))
 	}
 	r.mu.Unlock()
 
@@ -627,11 +691,12 @@ func (c vfC13Cfg) outsFree() []string {
 
 // how a run's statement and context are made
 type vfC13Opts struct {
-	stmt     string        // "query" | "batch"
-	observer bool          // QueryObserver / BatchObserver installed
-	entries  int           // batch: which per-entry idempotence pattern (see vfC13Entries)
-	timeout  time.Duration // > 0: the caller's context is context.WithTimeout(timeout)
-	scripted bool          // the caller's context is a vfC13Ctx (deadline expires on command)
+	stmt      string        // "query" | "batch"
+	observer  bool          // QueryObserver / BatchObserver installed
+	entries   int           // batch: which per-entry idempotence pattern (see vfC13Entries)
+	timeout   time.Duration // > 0: the caller's context is context.WithTimeout(timeout)
+	scripted  bool          // the caller's context is a vfC13Ctx (deadline expires on command)
+	specDelay time.Duration // > 0: SpeculativeExecutionPolicy.Delay()
 }
 
 // per-entry idempotence of a batch: all entries idempotent when the scenario says the statement is
@@ -717,6 +782,9 @@ func vfC13NewRun(cfg vfC13Cfg, seed int64, free bool, polName string, roundRobin
 		d := time.Duration(2+r.rng.Intn(3)) * time.Millisecond
 		if free {
 			d = time.Duration(30+r.rng.Intn(400)) * time.Microsecond
+		}
+		if o.specDelay > 0 {
+			d = o.specDelay
 		}
 		spec = &SimpleSpeculativeExecution{NumAttempts: cfg.K, TimeoutDelay: d}
 	}
@@ -978,25 +1046,22 @@ func vfC13Replay(c *vfC13Case, polName string) (sum vfC13Summary, begin vfC13Beg
 	r.mu.Lock()
 	r.drain = true
 	r.mu.Unlock()
-	fin := make(chan struct{})
-	go func() { <-done; r.wg.Wait(); close(fin) }()
-	watchdog := time.After(5 * time.Second)
-loop:
-	for {
-		for e, g := range parked {
-			g.resume <- ""
-			delete(parked, e)
+	sum.Hang, sum.Stuck = r.awaitEnd(done, 8*time.Second, func() {
+		for {
+			for e, g := range parked {
+				g.resume <- ""
+				delete(parked, e)
+			}
+			select {
+			case g := <-r.parkCh:
+				parked[g.e] = g
+			default:
+				return
+			}
 		}
-		select {
-		case g := <-r.parkCh:
-			parked[g.e] = g
-		case <-fin:
-			break loop
-		case <-watchdog:
-			sum.Hang = "executeQuery or an execution goroutine did not finish within 5s after all gates were opened"
-			atomic.AddInt32(&vfC13Hangs, 1)
-			break loop
-		}
+	})
+	if sum.Hang != "" {
+		atomic.AddInt32(&vfC13Hangs, 1)
 	}
 	r.cancel()
 	r.mu.Lock()
@@ -1055,13 +1120,27 @@ func vfC13Free(id int, seed int64) (sum vfC13Summary, begin vfC13Begin, log []vf
 		cfg.Polkind = "budget"
 		cfg.Poln = rng.Intn(4)
 	}
+	// every 10th execution is a round of "the caller's context ends after every speculative execution
+	// was launched and before any attempt has answered": executeQuery must return all the same (run()
+	// may then drop its result, the choice inside its select is the runtime's)
+	rounds := id%10 == 0
+	if rounds {
+		cfg.K, cfg.Idem, cfg.Hosts = 1, true, []string{"ok", "ok", "ok"}
+	}
 	roundRobin := rng.Intn(2) == 0
 	stmt := []string{"query", "batch"}[rng.Intn(2)]
 	opts := vfC13Opts{stmt: stmt, observer: rng.Intn(2) == 0, entries: rng.Intn(4)}
 	// the caller's context: never ends / is cancelled by the caller / has a (real) deadline
 	ctxForm := []string{"none", "none", "none", "none", "none", "cancel", "deadline", "deadline"}[rng.Intn(8)]
+	if rounds {
+		ctxForm = []string{"cancel", "deadline"}[rng.Intn(2)]
+		opts.specDelay = 40 * time.Microsecond
+	}
 	if ctxForm == "deadline" {
 		opts.timeout = time.Duration(1 + rng.Int63n(int64(600*time.Microsecond)))
+		if rounds {
+			opts.timeout = 900 * time.Microsecond
+		}
 	}
 	r, ex, fq := vfC13NewRun(cfg, seed, true, polName, roundRobin, opts)
 	sum = vfC13Summary{Id: id, Mode: "free", Policy: polName}
@@ -1071,6 +1150,12 @@ func vfC13Free(id int, seed int64) (sum vfC13Summary, begin vfC13Begin, log []vf
 	cancelAfter := time.Duration(-1)
 	if ctxForm == "cancel" {
 		cancelAfter = time.Duration(rng.Int63n(int64(600 * time.Microsecond)))
+		if rounds {
+			cancelAfter = 900 * time.Microsecond
+		}
+	}
+	if rounds {
+		r.minDelay, r.maxDelay = 2500*time.Microsecond, 3*time.Millisecond
 	}
 	done := make(chan struct{})
 	go func() {
@@ -1097,12 +1182,8 @@ func vfC13Free(id int, seed int64) (sum vfC13Summary, begin vfC13Begin, log []vf
 			}
 		}()
 	}
-	fin := make(chan struct{})
-	go func() { <-done; r.wg.Wait(); close(fin) }()
-	select {
-	case <-fin:
-	case <-time.After(10 * time.Second):
-		sum.Hang = "executeQuery or an execution goroutine did not finish within 10s"
+	sum.Hang, sum.Stuck = r.awaitEnd(done, 10*time.Second, nil)
+	if sum.Hang != "" {
 		atomic.AddInt32(&vfC13Hangs, 1)
 	}
 	r.cancel()
